@@ -1,6 +1,8 @@
 #!/bin/bash
-# quick developer rebuild: coq (make), extraction, driver, harness
+# dev rebuild: Coq development (make), extraction + OCaml driver, Go harness. Paths relative to this checkout.
 set -e
-cd /verif/coq && { [ -f Makefile ] && [ Makefile -nt _CoqProject ] || coq_makefile -f _CoqProject -o Makefile >/dev/null; } && make -j16 > /tmp/verif_make.log 2>&1 || { grep -v "^COQ\|^CO" /tmp/verif_make.log | head -30; exit 1; }
-cd /verif/ocaml && coqc -Q ../coq TV ../coq/Extract.v && ocamlfind ocamlopt -package str -linkpkg -O2 -w -a model.mli model.ml proto.ml prog.ml $(ls drv_*.ml) driver.ml -o /verif/_build/driver && rm -f *.cm* *.o
-cd /verif/harness && GOFLAGS=-mod=mod GOPROXY=off GOSUMDB=off GOTOOLCHAIN=local go build -tags verif -o /verif/_build/harness .
+V="$(cd "$(dirname "$0")/.." && pwd)"
+mkdir -p "$V/_build"
+cd "$V/coq" && { [ -f Makefile ] && [ Makefile -nt _CoqProject ] || coq_makefile -f _CoqProject -o Makefile >/dev/null; } && make -j16 > "$V/_build/make.log" 2>&1 || { grep -v "^COQ\|^CO" "$V/_build/make.log" | head -30; exit 1; }
+cd "$V/ocaml" && coqc -Q ../coq TV ../coq/Extract.v && ocamlfind ocamlopt -package str -linkpkg -O2 -w -a model.mli model.ml proto.ml prog.ml $(ls drv_*.ml) driver.ml -o "$V/_build/driver" && rm -f *.cm* *.o
+cd "$V/harness" && GOFLAGS=-mod=mod GOPROXY=off GOSUMDB=off GOTOOLCHAIN=local go build -tags verif -o "$V/_build/harness" .
